@@ -8,8 +8,14 @@
 (*   ack {c,m}                               c sent PUBACK for m and then completed a PINGREQ/       *)
 (*                                           PINGRESP round trip: the broker has processed the ack, *)
 (*                                           and everything it had queued before is already read    *)
-(*   cpub {c,pid,q,t} / pipe {c,pid,t} / cpuback {c,pid}   PUBLISH sent by a client, the call seen by *)
-(*                                           the recording backend pipeline, the PUBACK read         *)
+(*   cpub {k,c,pid,q,t,u,dup,v}              the k-th PUBLISH sent by a client: message u (its payload), DUP *)
+(*                                           flag, and the verdict the backend pipeline will give on it  *)
+(*   pipe {c,pid,t,u,dup,v}                  a call seen by the recording backend pipeline and its verdict *)
+(*   cpuback {c,pid,k}                       the PUBACK read in answer to the k-th PUBLISH                 *)
+(*   byst {x,up}                             a client without subscriptions connected / disconnected (no    *)
+(*                                           effect on anything the contract says)                           *)
+(*   abort                                   the scenario was cut short after a certified violation (a        *)
+(*                                           broker that does not deliver any more cannot be driven on)       *)
 (*   miss {c,m}                              (after the barriers) c has not received m - accepted only *)
 (*                                           if the contract owed it: a certified Fanout violation     *)
 (*   stuck {c,m,n0}                          the deadline passed without a retransmission of c's oldest *)
@@ -30,9 +36,10 @@ VARIABLES l,
           mayget,    \* <<c, m>>: c had a matching subscription when m was published
           waived,    \* <<c, m>>: QoS0 copy that may have met a full queue
           pidm,      \* <<c, pid, m>> seen so far (a packet id names one message per connection)
-          viol       \* certified violations: <<"miss" | "stuck", c, m>>
+          viol,      \* certified violations: <<"miss" | "stuck", c, m>>
+          upacked    \* the client PUBLISH packets (indices of `up`) answered by a PUBACK
 
-tvars == <<dvars, l, owed, mayget, waived, pidm, viol>>
+tvars == <<dvars, l, owed, mayget, waived, pidm, viol, upacked>>
 
 IsEvent(e) == l <= Len(TLog) /\ TLog[l].ev = e /\ l' = l + 1
 E == TLog[l]
@@ -40,16 +47,17 @@ E == TLog[l]
 Fresh == /\ subs' = {} /\ n' = 0 /\ last' = [a |-> "init"]
          /\ msgs' = <<>> /\ inq' = [c \in Clients |-> <<>>] /\ pend' = [c \in Clients |-> <<>>] /\ got' = [c \in Clients |-> <<>>]
          /\ ackd' = [c \in Clients |-> {}] /\ resends' = 0 /\ up' = <<>> /\ piped' = {} /\ upack' = <<>> /\ step' = [a |-> "init"]
-         /\ owed' = {} /\ mayget' = {} /\ waived' = {} /\ pidm' = {} /\ viol' = {}
+         /\ infl' = [c \in Clients |-> [p \in PidsUp |-> 0]] /\ byst' = {}
+         /\ owed' = {} /\ mayget' = {} /\ waived' = {} /\ pidm' = {} /\ viol' = {} /\ upacked' = {}
 
-Keep == UNCHANGED <<inq, pend, resends, step>>
+Keep == UNCHANGED <<inq, pend, resends, step, infl>>
 
 TReset == IsEvent("reset") /\ Fresh
 
 TSub == /\ IsEvent("sub") /\ Subscribe(E.c, <<E.f>>, <<E.q>>, {1}) /\ last'.ok
-        /\ Keep /\ UNCHANGED <<msgs, got, ackd, up, piped, upack, owed, mayget, waived, pidm, viol>>
+        /\ Keep /\ UNCHANGED <<msgs, got, ackd, up, piped, upack, byst, owed, mayget, waived, pidm, viol, upacked>>
 TUnsub == /\ IsEvent("unsub") /\ Unsubscribe(E.c, <<E.f>>)
-          /\ Keep /\ UNCHANGED <<msgs, got, ackd, up, piped, upack, owed, mayget, waived, pidm, viol>>
+          /\ Keep /\ UNCHANGED <<msgs, got, ackd, up, piped, upack, byst, owed, mayget, waived, pidm, viol, upacked>>
 
 (* number of copies owed to c that c has not read yet: a lower bound of its queue length *)
 Outstanding(c) == Cardinality({x \in owed : x[1] = c /\ x[2] \notin SeqSet(got[c])})
@@ -59,7 +67,7 @@ TPub == /\ IsEvent("pub") /\ E.m = Len(msgs) + 1
         /\ owed' = owed \cup {<<c, E.m>> : c \in Must(E.t, E.q)}
         /\ mayget' = mayget \cup {<<c, E.m>> : c \in May(E.t, E.q)}
         /\ waived' = waived \cup {<<c, E.m>> : c \in {x \in Must(E.t, E.q) : E.q = 0 /\ Outstanding(x) >= QCap}}
-        /\ Keep /\ UNCHANGED <<vars, got, ackd, up, piped, upack, pidm, viol>>
+        /\ Keep /\ UNCHANGED <<vars, got, ackd, up, piped, upack, byst, pidm, viol, upacked>>
 
 TRecv == /\ IsEvent("recv")
          /\ E.m \in 1..Len(msgs)
@@ -70,24 +78,32 @@ TRecv == /\ IsEvent("recv")
                        /\ \A x \in pidm : (x[1] = E.c /\ x[3] = E.m) => x[2] = E.pid
          /\ pidm' = IF E.q = 1 THEN pidm \cup {<<E.c, E.pid, E.m>>} ELSE pidm
          /\ got' = [got EXCEPT ![E.c] = Append(@, E.m)]
-         /\ Keep /\ UNCHANGED <<vars, msgs, ackd, up, piped, upack, owed, mayget, waived, viol>>
+         /\ Keep /\ UNCHANGED <<vars, msgs, ackd, up, piped, upack, byst, owed, mayget, waived, viol, upacked>>
 
 TAck == /\ IsEvent("ack") /\ E.m \in SeqSet(got[E.c])
         /\ ackd' = [ackd EXCEPT ![E.c] = @ \cup {E.m}]
-        /\ Keep /\ UNCHANGED <<vars, msgs, got, up, piped, upack, owed, mayget, waived, pidm, viol>>
+        /\ Keep /\ UNCHANGED <<vars, msgs, got, up, piped, upack, byst, owed, mayget, waived, pidm, viol, upacked>>
 
-TCPub == /\ IsEvent("cpub")
-         /\ up' = Append(up, [c |-> E.c, pid |-> E.pid, q |-> E.q, t |-> E.t])
-         /\ Keep /\ UNCHANGED <<vars, msgs, got, ackd, piped, upack, owed, mayget, waived, pidm, viol>>
+TCPub == /\ IsEvent("cpub") /\ E.k = Len(up) + 1
+         /\ E.dup => \E i \in 1..Len(up) : up[i].c = E.c /\ up[i].pid = E.pid /\ up[i].u = E.u       \* DUP=1: sent before with this id
+         /\ up' = Append(up, [c |-> E.c, pid |-> E.pid, q |-> E.q, t |-> E.t, u |-> E.u, dup |-> E.dup, v |-> E.v])
+         /\ Keep /\ UNCHANGED <<vars, msgs, got, ackd, piped, upack, byst, owed, mayget, waived, pidm, viol, upacked>>
+(* a pipeline call is the call for one PUBLISH packet of that client that has not been accounted for *)
 TPipe == /\ IsEvent("pipe")
-         /\ \E i \in 1..Len(up) : /\ i \notin piped /\ up[i].c = E.c /\ up[i].t = E.t /\ (up[i].q = 1 => up[i].pid = E.pid)
+         /\ \E i \in 1..Len(up) : /\ i \notin piped /\ up[i].c = E.c /\ up[i].t = E.t /\ up[i].u = E.u /\ up[i].dup = E.dup /\ up[i].v = E.v
+                                  /\ (up[i].q = 1 => up[i].pid = E.pid)
+                                  /\ \A j \in 1..(i - 1) : (j \notin piped /\ up[j].c = E.c /\ up[j].u = E.u /\ up[j].dup = E.dup /\ up[j].v = E.v) => FALSE
                                   /\ piped' = piped \cup {i}
-         /\ Keep /\ UNCHANGED <<vars, msgs, got, ackd, up, upack, owed, mayget, waived, pidm, viol>>
+         /\ Keep /\ UNCHANGED <<vars, msgs, got, ackd, up, upack, byst, owed, mayget, waived, pidm, viol, upacked>>
+(* one PUBACK per PUBLISH at most, with the same id *)
 TCPuback == /\ IsEvent("cpuback")
-            /\ Cardinality({i \in 1..Len(up) : up[i].c = E.c /\ up[i].q = 1 /\ up[i].pid = E.pid})       \* one PUBACK per PUBLISH, same id
-                 > Cardinality({j \in 1..Len(upack) : upack[j] = [c |-> E.c, pid |-> E.pid]})
+            /\ E.k \in 1..Len(up) /\ E.k \notin upacked
+            /\ up[E.k].c = E.c /\ up[E.k].q = 1 /\ up[E.k].pid = E.pid
+            /\ upacked' = upacked \cup {E.k}
             /\ upack' = Append(upack, [c |-> E.c, pid |-> E.pid])
-            /\ Keep /\ UNCHANGED <<vars, msgs, got, ackd, up, piped, owed, mayget, waived, pidm, viol>>
+            /\ Keep /\ UNCHANGED <<vars, msgs, got, ackd, up, piped, byst, owed, mayget, waived, pidm, viol>>
+TByst == /\ IsEvent("byst") /\ byst' = IF E.up THEN byst \cup {E.x} ELSE byst \ {E.x}
+         /\ Keep /\ UNCHANGED <<vars, msgs, got, ackd, up, piped, upack, owed, mayget, waived, pidm, viol, upacked>>
 
 (* the oldest message c has received with QoS1 and not acknowledged *)
 Unacked(c) == SelectSeq(got[c], LAMBDA m : msgs[m].q = 1 /\ <<c, m>> \in owed /\ m \notin ackd[c])
@@ -95,22 +111,27 @@ Unacked(c) == SelectSeq(got[c], LAMBDA m : msgs[m].q = 1 /\ <<c, m>> \in owed /\
 TMiss == /\ IsEvent("miss")
          /\ <<E.c, E.m>> \in owed \ waived /\ E.m \notin SeqSet(got[E.c])
          /\ viol' = viol \cup {<<"miss", E.c, E.m>>}
-         /\ UNCHANGED <<dvars, owed, mayget, waived, pidm>>
+         /\ UNCHANGED <<dvars, owed, mayget, waived, pidm, upacked>>
 TStuck == /\ IsEvent("stuck")
           /\ Unacked(E.c) # <<>> /\ Head(Unacked(E.c)) = E.m
           /\ Count(got[E.c], E.m) = E.n0          \* no reception since the harness started to wait (E.n0 receptions then)
           /\ viol' = viol \cup {<<"stuck", E.c, E.m>>}
-          /\ UNCHANGED <<dvars, owed, mayget, waived, pidm>>
+          /\ UNCHANGED <<dvars, owed, mayget, waived, pidm, upacked>>
 
 TSettle == /\ IsEvent("settle")
            /\ \A x \in owed \ waived : x[2] \in SeqSet(got[x[1]]) \/ <<"miss", x[1], x[2]>> \in viol       \* Fanout
            /\ \A c \in Clients : Unacked(c) # <<>> =>                                   \* retransmitted until acknowledged
                   (Count(got[c], Head(Unacked(c))) >= 2 \/ <<"stuck", c, Head(Unacked(c))>> \in viol)
-           /\ PubAckSameId
-           /\ UNCHANGED <<dvars, owed, mayget, waived, pidm, viol>>
+           /\ MessageReachesPipeline                                                  \* client PUBLISH -> backend pipeline
+           /\ \A i \in 1..Len(up) : MustAck(i) => i \in upacked                      \* ... and PUBACK with the same id
+           /\ UNCHANGED <<dvars, owed, mayget, waived, pidm, viol, upacked>>
 
-TNext == TMiss \/ TStuck \/ TReset \/ TSub \/ TUnsub \/ TPub \/ TRecv \/ TAck \/ TCPub \/ TPipe \/ TCPuback \/ TSettle
-TInit == /\ l = 1 /\ owed = {} /\ mayget = {} /\ waived = {} /\ pidm = {} /\ viol = {}
+(* a scenario may end early only after a violation the contract has certified *)
+TAbort == IsEvent("abort") /\ viol # {} /\ UNCHANGED <<dvars, owed, mayget, waived, pidm, viol, upacked>>
+
+TNext == TMiss \/ TStuck \/ TReset \/ TSub \/ TUnsub \/ TPub \/ TRecv \/ TAck \/ TCPub \/ TPipe \/ TCPuback \/ TByst \/ TSettle \/ TAbort
+TInit == /\ l = 1 /\ owed = {} /\ mayget = {} /\ waived = {} /\ pidm = {} /\ viol = {} /\ upacked = {}
+         /\ infl = [c \in Clients |-> [p \in PidsUp |-> 0]] /\ byst = {}
          /\ subs = {} /\ n = 0 /\ last = [a |-> "init"]
          /\ msgs = <<>> /\ inq = [c \in Clients |-> <<>>] /\ pend = [c \in Clients |-> <<>>] /\ got = [c \in Clients |-> <<>>]
          /\ ackd = [c \in Clients |-> {}] /\ resends = 0 /\ up = <<>> /\ piped = {} /\ upack = <<>> /\ step = [a |-> "init"]
